@@ -34,6 +34,16 @@ func Format(src string) (out string, prog *parser.Program, accepted bool, crash 
 	return prog.Format(), prog, true, nil
 }
 
+// FormatAgain calls Format on an already formatted program.
+func FormatAgain(prog *parser.Program) (out string, crash *rec.Outcome) {
+	defer func() {
+		if r := recover(); r != nil {
+			crash = &rec.Outcome{Class: "gopanic", Msg: fmt.Sprint(r), Stack: string(debug.Stack())}
+		}
+	}()
+	return prog.Format(), nil
+}
+
 // Sig is one significant (non-whitespace) token in canonical form.
 type Sig struct {
 	Type lexer.TokenType
